@@ -563,4 +563,56 @@ def r15_11(ctx):
     ctx.floor("R15.11", "calls into the promoting helpers of Value from index_into_mut", n, 3)
 
 
-RULES = [("R15.1", r15_a), ("R15.2", r15_2), ("R15.3", r15_3), ("R15.4", r15_4), ("R15.5", r15_5), ("R15.6", r15_6), ("R15.7", r15_7), ("R15.8", r15_8), ("R15.9", r15_9), ("R15.10", r15_10), ("R15.11", r15_11)]
+def r15_12(ctx):
+    """the cursors of the consuming array iterator stay ordered (index <= len): `len() = len - index`, `as_slice` and the
+    element accesses rely on it.  Every store to `index` / `len` of array::IntoIter is a step by one on the edge where
+    `index < len` was tested, a clamp to the other cursor (min / max), or the initial value in a constructor"""
+    from .c11 import _store_arith
+    prog = ctx.prog()
+    adt = "array::IntoIter"
+    n = 0
+    seen = collections.Counter()
+    for f in prog.fns.values():
+        if f.crate != "sonic_rs":
+            continue
+        for b, i, st in f.assigns():
+            names = [e[2] for e in st["lhs"][1] if isinstance(e, list) and e[0] == "."]
+            if names[-1:] not in (["index"], ["len"]) or adt not in f.locals[st["lhs"][0]]["ty"]:
+                continue
+            n += 1
+            fld = names[-1]
+            found, leaves = _store_arith(f, st, "Add" if fld == "index" else "Sub")
+            by_one = found and any(lf[0] == "const" and op_int(lf[1]) == 1 for lf in leaves)
+            guarded = False
+            for bb, ii, ss in f.assigns():
+                rv = ss["rv"]
+                if rv["k"] == "binop" and rv["op"] in ("Lt", "Gt", "Ne", "Ge", "Le", "Eq") and f.dominates(bb, b):
+                    tags = []
+                    for o in (rv["a"], rv["b"]):
+                        l = op_local(o)
+                        lv = backward_slice(f, [l], through_calls=False)[1] if l is not None else []
+                        tags.append({[e[2] for e in lf[1][1] if isinstance(e, list) and e[0] == "."][-1] for lf in lv if lf[0] == "place" and lf[1][1] and adt in f.locals[lf[1][0]]["ty"] and [e for e in lf[1][1] if isinstance(e, list) and e[0] == "."]})
+                    il = "index" in tags[0] and "len" in tags[1]
+                    li = "len" in tags[0] and "index" in tags[1]
+                    # the edge on which index < len holds
+                    pos = (rv["op"] == "Lt" and il) or (rv["op"] == "Gt" and li) or (rv["op"] == "Ne" and (il or li))
+                    neg = (rv["op"] == "Ge" and il) or (rv["op"] == "Le" and li) or (rv["op"] == "Eq" and (il or li))
+                    e = bool_switch_edges(f, ss["lhs"][0]) if (pos or neg) else None
+                    if e:
+                        inside, outside = (e[0], e[1]) if pos else (e[1], e[0])
+                        if (inside == b or f.dominates(inside, b)) and b not in f.reachable_from(outside, avoid={inside}):
+                            guarded = True
+            clamp = False
+            if st["rv"]["k"] == "use" and op_local(st["rv"]["op"]) is not None:
+                src = f.src(op_local(st["rv"]["op"]))
+                if src[0] == "call" and callee_is(src[2], "min" if fld == "index" else "max"):
+                    clamp = True
+            ok = (by_one and guarded) or clamp
+            seen[short(f.id)] += 1
+            ctx.ob("R15.12", f"{short(f.id)}:{fld}#{seen[short(f.id)]}", ok, f.loc(st.get("ln")),
+                   f"`{fld}` moves by one on the edge where index < len was tested" if by_one and guarded else ("clamped to the other cursor" if clamp else
+                   f"`{fld}` of the consuming iterator is changed without keeping index <= len: len() underflows (panic / huge length) and the slice views go out of range once the cursor has passed the end"))
+    ctx.floor("R15.12", "stores to the cursors of array::IntoIter", n, 2)
+
+
+RULES = [("R15.1", r15_a), ("R15.2", r15_2), ("R15.3", r15_3), ("R15.4", r15_4), ("R15.5", r15_5), ("R15.6", r15_6), ("R15.7", r15_7), ("R15.8", r15_8), ("R15.9", r15_9), ("R15.10", r15_10), ("R15.11", r15_11), ("R15.12", r15_12)]
